@@ -117,7 +117,6 @@ Corollary sol_check_prefix g start cst f (out : list tree) :
   forall n, Forall (valid_solution g start cst f) (firstn n out).
 Proof.
   intros H n. apply Forall_forall. intros t Hin.
-  apply (In_firstn_aux t) in Hin || idtac.
   rewrite forallb_forall in H. apply sol_check_sound. apply N.eqb_eq. apply H.
   clear H. revert n Hin. induction out as [|x l IH]; intros [|n] Hin; simpl in *; try contradiction.
   destruct Hin as [->|Hin]; [left; reflexivity | right; eapply IH; eassumption].
